@@ -28,7 +28,7 @@ type Ev struct {
 	quiet bool
 	qvars []string // binders of enclosing spec quantifiers
 	wfSeen map[string]bool
-	qindex map[string][2]string // bound variable -> (offset term, select term) of its first use as a slice index
+	qindex map[string][][2]string // bound variable -> (offset term, select term) of its uses as a plain slice index (first two distinct arrays)
 	inTypeInv bool
 	allocPred string // at a call site: the predicate 'allocated by this call'
 }
@@ -602,7 +602,8 @@ func (e *Ev) nilCompare(op token.Token, a, b Term, n ast.Node) Term {
 		r = smtEq(app("sarr", x.S), "0")
 	}
 	if x.Sort == sObj {
-		r = smtEq(app("otag", x.S), "0")
+		// the nil interface is the canonical value without dynamic type and payload
+		r = smtEq(x.S, "(mkObj 0 0 str_empty)")
 	}
 	if op == token.NEQ {
 		r = smtNot(r)
@@ -1301,8 +1302,16 @@ func (e *Ev) index(n *ast.IndexExpr) Term {
 		idx := app("+", app("soff", x.S), i)
 		sel := app("select", app("select", h, app("sarr", x.S)), idx)
 		if e.spec && e.qindex != nil && strings.HasPrefix(i, "q$") && !strings.Contains(i, " ") {
-			if _, done := e.qindex[i]; !done && !strings.Contains(x.S, i) {
-				e.qindex[i] = [2]string{app("soff", x.S), sel}
+			if !strings.Contains(x.S, i) {
+				dup := false
+				for _, c := range e.qindex[i] {
+					if c[1] == sel {
+						dup = true
+					}
+				}
+				if !dup && len(e.qindex[i]) < 2 {
+					e.qindex[i] = append(e.qindex[i], [2]string{app("soff", x.S), sel})
+				}
 			}
 		}
 		return Term{S: sel, Sort: s, T: u.Elem(), Signed: isSigned(u.Elem())}
@@ -1522,14 +1531,11 @@ func (e *Ev) wfSlice(t Term) {
 	if e.wfSeen == nil {
 		e.wfSeen = map[string]bool{}
 	}
-	key := c
-	if e.u.wfDone[key] {
-		return
+	for _, h := range e.st.pc {
+		if h == c {
+			return
+		}
 	}
-	if e.u.wfDone == nil {
-		e.u.wfDone = map[string]bool{}
-	}
-	e.u.wfDone[key] = true
 	var used []string
 	for _, qv := range e.qvars {
 		name := qv[1:strings.Index(qv, " ")]
@@ -1540,7 +1546,7 @@ func (e *Ev) wfSlice(t Term) {
 	if len(used) > 0 {
 		c = fmt.Sprintf("(forall (%s) %s)", strings.Join(used, " "), c)
 	}
-	e.define(c)
+	e.st.assume(c)
 }
 
 // Type invariants (`typeinv T` / `def <expr over self>`): a predicate on the struct value that
